@@ -21,6 +21,10 @@ CHECKS = {
    technique="TLC model checking of spec/Resolver.tla (all interleavings of the critical sections of StorageResolver::get and the compute-once cache; safety, deadlock, liveness under fairness) + deterministic schedule replay on real threads (baton scheduler at cfg-guarded yield points)",
    text="TLC checks the intended design (per-thread recursion guard, compute-once cache) for 2-3 threads x 1-2 loads over acyclic, cyclic and fan-out dependency graphs in all sharing/cache modes: SequentialAnswers, NoPanic, deadlock freedom, termination under weak fairness; the shared-guard and unbounded-wait deviations are refuted. The schedules TLC enumerates (every interleaving for 2x1, transition cover for 2x2 and 3x1, random complete walks) are replayed step by step on real threads through yield points in the library; zero schedule drift is required for the binding to be meaningful and is reported.",
    note="Bounded thread/load counts; only dependency graphs realisable with /Parent links are replayed; the instrumented cache implements the Cache trait with the SyncCache protocol (the real SyncCache is used in the probe). Needs the cfg(pdf_rs_pdf_verif) hooks."),
+ "C19": dict(level="model_checking", design="5/C19", engine="A:widths+cmap",
+   technique="TLC model checking of spec/Widths.tla (offset-vector table: invariant Represents after every set, all small /W arrays in any order) and spec/CMap.tla (writer/reader/conformant texts) + replay through Font::widths and write_cmap/Font::to_unicode",
+   text="Real model checking of the width-table data structure (five growth cases, invariant after every set, all arrays of <=3 disjoint groups in every order) and of the cmap writer/reader pair (all small maps; all well-formed texts with bfchar and both bfrange forms); three deviation switches refuted; every array/map/text is realised as a font dictionary or ToUnicode stream and read through the public API, scaled to the 16-bit code range by offsets.",
+   note="Bounded code and target domains in the model; trusted: TLC, mkpdf, the harness' conformant cmap printer."),
 }
 
 def main():
